@@ -11,9 +11,9 @@ LATIN1_HIGH = [chr(i) for i in range(128, 256)]
 CLS = ["a", "Z", "0", "~", ".", "-", "/", "?", "#", "@", ":", "[", "]", "&", "=", "+", ";", "!", " ", '"',
        "\x00", "\x7f", "%", "\\", "|", "^", "{", "<", "`", "'", ",", "$", "*", "(", "_"]
 
-UNI = ["é", "€", "\U0001f600", "\xa0", "\u200b", "\ud55c", "\u0430", "\u0161", "\u0125"]
+UNI = ["é", "€", "\U0001f600", "\xa0", "\u200b", "\ud55c", "\u0430", "\u0161", "\u0125", "\U0001d800"]
 # U+D55C: UTF-8 lead byte 0xED (like encoded surrogates); U+0430 / U+0161 / U+0125: the low byte of the code point is an ASCII
-# '0' / 'a' / '%' (classes for C code that narrows a Py_UCS4)
+# '0' / 'a' / '%' (classes for C code that narrows a Py_UCS4); U+1D800: a supplementary-plane character whose low 16 bits look like a surrogate
 SURR = ["\ud800", "\udfff"]
 
 ESC = ["%41", "%7e", "%7E", "%2F", "%2f", "%2B", "%2b", "%26", "%3D", "%3B", "%3F", "%23", "%25", "%20", "%2E", "%2e",
